@@ -23,8 +23,8 @@ pub fn def() -> PropDef {
 fn to_real(v: &AV) -> Option<v1::Addresses> {
     Some(match v {
         AV::None => v1::Addresses::Unknown,
-        AV::V4 { src, dst, sport, dport } => v1::Addresses::Tcp4(v1::IPv4 { source_address: Ipv4Addr::from(*src), source_port: *sport, destination_address: Ipv4Addr::from(*dst), destination_port: *dport }),
-        AV::V6 { src, dst, sport, dport } => v1::Addresses::Tcp6(v1::IPv6 { source_address: Ipv6Addr::from(*src), source_port: *sport, destination_address: Ipv6Addr::from(*dst), destination_port: *dport }),
+        AV::V4 { src, dst, sport, dport } => v1::Addresses::Tcp4(super::values::make_v4(*src, *dst, *sport, *dport)),
+        AV::V6 { src, dst, sport, dport } => v1::Addresses::Tcp6(super::values::make_v6(*src, *dst, *sport, *dport)),
         AV::Unix { .. } => return None,
     })
 }
